@@ -20,7 +20,7 @@ WORLD_OF = {
     "C12": [("ctxlife", 0.85), ("components", 0.15)],
     "C13": "ctxlife",
     "C02": [("resources", 0.85), ("components", 0.15)],
-    "C03": "resources",
+    "C03": [("resources", 0.93), ("components", 0.07)],
     "C04": "resources",
     "C18": [("resources", 0.88), ("components", 0.12)],
     "C19": "resources",
@@ -29,9 +29,9 @@ WORLD_OF = {
     "C07": "components",
     "C14": "components",
     "C08": "tasks",
-    "C09": "tasks",
+    "C09": [("tasks", 0.92), ("components", 0.08)],
     "C10": "events",
-    "C11": "events",
+    "C11": [("events", 0.93), ("components", 0.07)],
     "C15": "apprunner",
 }
 GEN_VERSION = 1
